@@ -318,4 +318,10 @@ theorem DrainInv.move {s X : State} {a : Nat} {pc' : Pc} (h : DrainInv s)
     · exact h.wq q f h1
     · exact h1
 
+theorem qSt_initP {ps : List Bool} {ng max q : Nat} {st : QState} (h : (initStateP ps ng max).qSt q = some st) : st = .panicked ∨ st = .idle := by
+  simp only [initStateP, State.qSt, List.getElem?_map] at h
+  cases hp : ps[q]? with
+  | none => simp [hp] at h
+  | some p => cases p <;> simp [hp] at h <;> simp [← h]
+
 end Desync
